@@ -656,7 +656,7 @@ def shard(ctx: Ctx) -> None:
                 # the manager is started first so that every history exercises it; the variant rotates
                 hist = [["start"]] + [list(ALPHABET[i]) for i in combo]
                 one(ctx, {"variant": VARIANTS[idx % len(VARIANTS)], "hist": hist}, f"all-histories-len{ln}")
-    for _ in range(90000 if ctx.thorough else 10000):
+    for _ in range(300000 if ctx.thorough else 10000):
         h = gen_history(rng)
         v = rng.choice(VARIANTS)
         idx += 1
